@@ -25,6 +25,7 @@ Notation OK := OOk.
 Notation EN := (OErr ENone).
 Notation ET := (OErr ETorn).
 Notation EF := (OErr EFull).
+Notation GB := (OErr EGarble).
 
 Record case12 := K12 {
   k_thr : N;                               (* backpressure_threshold_bytes *)
